@@ -148,8 +148,15 @@ let validate (c : case) : string =
         | _ -> None) (dedup_keys [] (!fs).fs_nodes) in
     let scan_regs = List.filter_map (scan_registers lens) files_under in
     let expected = !registered @ scan_regs in
-    List.iter (fun l ->
+    (* the index as the model's insertion procedure builds it (IndexModel.build_index; IndexBuild.v proves
+       it holds exactly the registered set, in any insertion order) *)
+    let built = build_index expected in
+    List.iter (fun (l, ns) ->
         let exp = sort_uniq_nodes (List.filter_map (fun (n, x) -> if n = l then Some x else None) expected) in
+        if List.length ns <> List.length exp || sort_uniq_nodes ns <> exp then
+          bad "index for length %s: the model's insertion procedure and the registered set differ" (string_of_n l)) built;
+    List.iter (fun l ->
+        let exp = sort_uniq_nodes (match List.assoc_opt l built with Some x -> x | None -> []) in
         let obs = sort_uniq_nodes (match List.assoc_opt l c.nodes with Some x -> x | None -> []) in
         if exp <> obs then
           bad "index for length %s: registered {%s}, the model registers {%s}" (string_of_n l)
